@@ -26,3 +26,15 @@ Print Assumptions C19_history.
 Theorem C19_documents : forall o st, failed st = false -> step o st ODocuments = (st, RDocs (documents st)).
 Proof. intros o st H. unfold step. now rewrite H. Qed.
 Print Assumptions C19_documents.
+(* every observation anywhere in a history equals what a parser returns that was fed only the earlier non-observer
+   calls: neither earlier output requests nor anything that happens later influences it *)
+Theorem C19_observation_at : forall o a x b st, is_observer x = true ->
+  nth_error (snd (run o st (a ++ x :: b))) (List.length a) =
+  Some (snd (step o (fst (run o st (filter (fun x => negb (is_observer x)) a))) x)).
+Proof. exact observation_at. Qed.
+Print Assumptions C19_observation_at.
+(* Output is a function of what Documents() shows: two parsers exposing the same documents print the same *)
+Theorem C19_output_of_documents : forall o st st', failed st = false -> failed st' = false ->
+  documents st = documents st' -> snd (step o st OOutput) = snd (step o st' OOutput).
+Proof. intros o st st' F F' D. unfold step. rewrite F, F'. cbn [snd]. now rewrite D. Qed.
+Print Assumptions C19_output_of_documents.
